@@ -229,14 +229,15 @@ class time_limit:
         return False
 
 
-def apply(model, label):
+def apply(model, label, private=True):
     """-> (new model or None, outcome) ; outcome: 'ok' | 'refused:<Type>' | 'crash:<Type>: msg'"""
     import warnings
 
     f = ops("all")[label]
     # every call gets a private copy of the dataset: some transformations write into the DataFrame of their
-    # argument (checked by C06); without this the cached parent state would change under our feet
-    if model.dataset is not None:
+    # argument (checked by C06); without this the cached parent state would change under our feet.
+    # private=False hands over the very object (sibling plans: two derivations from ONE parent object)
+    if private and model.dataset is not None:
         model = model.replace(dataset=model.dataset.copy())
     try:
         with warnings.catch_warnings():
